@@ -47,7 +47,14 @@ type c01Variant struct {
 
 func c01Variants(stats *svc.AlgoStats) []c01Variant {
 	d, c := svc.Algo("Zz-Xor", stats)
+	ld, lc := svc.Algo("zz-lazy", stats)
 	return []c01Variant{
+		// an algorithm whose output for an empty message is empty (and whose
+		// decompressor, like gzip's, rejects an empty source)
+		{name: "zzlazy-both-min0",
+			hopts:      []connect.HandlerOption{connect.WithCompression("zz-lazy", ld, lc), connect.WithCompressMinBytes(0)},
+			copts:      []connect.ClientOption{connect.WithAcceptCompression("zz-lazy", ld, lc), connect.WithSendCompression("zz-lazy"), connect.WithCompressMinBytes(0)},
+			compressed: true},
 		{name: "gzip-resp-only-min0"},
 		{name: "identity", hopts: []connect.HandlerOption{connect.WithCompressMinBytes(1 << 30)}, copts: []connect.ClientOption{connect.WithCompressMinBytes(1 << 30)}},
 		{name: "gzip-both-min0", copts: []connect.ClientOption{connect.WithSendGzip()}, compressed: true},
@@ -263,6 +270,11 @@ func c01(run *ev.Run) int {
 	}
 	if !run.Replaying() || strings.Contains(run.ReplayKey(), "late-eof") {
 		c01LateRequestEOF(run)
+	}
+	if !run.Replaying() || strings.Contains(run.ReplayKey(), "/paired/") {
+		// messages of valid calls that follow a call with a corrupt compression
+		// header on the same pools (the history is the one C08 uses)
+		c08Paired(run, "c01")
 	}
 	if !run.Replaying() || strings.Contains(run.ReplayKey(), "late-close") {
 		c01LateClose(run)
